@@ -658,6 +658,8 @@ func runC13(c *Ctx) {
 		}
 	}
 
+	ruleTrimSide(c)
+
 	// ---- R-LR-MIRROR
 	mirror := strings.NewReplacer(".LStart", ".RStart", ".LEnd", ".REnd", "lcur", "rcur", "addl", "addr")
 	lFields := map[string]string{"LStart": "RStart", "LEnd": "REnd"}
@@ -781,6 +783,98 @@ func runC13(c *Ctx) {
 		c.judge(strings.Join(l, ";") == strings.Join(r, ";"), "R-LR-MIRROR", "mdiff.New:addl~addr", addl.Pos(), "the left and right accumulators are mirror images", "the left and right range accumulators of New are not mirror images of each other")
 	} else {
 		c.undecided("R-LR-MIRROR", "mdiff.New:addl~addr", newFn.Pos(), "accumulator closures not recognised")
+	}
+}
+
+// ruleTrimSide: when overlapping context is cut in UnifyChunks, the trailing
+// context of the previous chunk loses its TAIL (keeps a prefix) and the leading
+// context of the current chunk loses its HEAD (keeps a suffix).
+func ruleTrimSide(c *Ctx) {
+	P := c.P
+	unify := P.Func("mdiff", "", "UnifyChunks")
+	if unify == nil {
+		c.undecided("ANCHOR", "mdiff.UnifyChunks", 0, "not found")
+		return
+	}
+	c.rule("R-TRIM-SIDE", 2, "overlap is cut from the tail of the trailing context and from the head of the leading context")
+	c.sawFn(fnName(unify))
+	// position of an edit pointer: "last" if every PtrAt/At leaf has index -1, "first" if 0
+	var where func(v ssa.Value, seen map[ssa.Value]bool) string
+	where = func(v ssa.Value, seen map[ssa.Value]bool) string {
+		if seen[v] {
+			return ""
+		}
+		seen[v] = true
+		switch x := v.(type) {
+		case *ssa.Phi:
+			res := ""
+			for _, e := range x.Edges {
+				w := where(e, seen)
+				if w == "" {
+					continue
+				}
+				if res != "" && res != w {
+					return "?"
+				}
+				res = w
+			}
+			return res
+		case *ssa.Call:
+			if cal := staticCallee(&x.Call); cal != nil && (cal.Name() == "PtrAt" || cal.Name() == "At") && len(x.Call.Args) == 2 {
+				if k, ok := constInt(x.Call.Args[1]); ok {
+					if k == -1 {
+						return "last"
+					}
+					if k == 0 {
+						return "first"
+					}
+				}
+			}
+		case *ssa.IndexAddr:
+			if k, ok := constInt(x.Index); ok && k == 0 {
+				return "first"
+			}
+			if bo, ok := x.Index.(*ssa.BinOp); ok && bo.Op == token.SUB && isConstInt(bo.Y, 1) {
+				if _, ok := isBuiltinCall(bo.X, "len"); ok {
+					return "last"
+				}
+			}
+		}
+		return "?"
+	}
+	n := 0
+	allInstrs(unify, func(in ssa.Instruction) {
+		st, ok := in.(*ssa.Store)
+		if !ok {
+			return
+		}
+		fa, ok := st.Addr.(*ssa.FieldAddr)
+		if !ok || !isEditType(fa.X.Type()) {
+			return
+		}
+		sl, ok := st.Val.(*ssa.Slice)
+		if !ok {
+			return
+		}
+		if b2, _ := loadedField(sl.X); b2 != fa.X {
+			return
+		}
+		n++
+		w := where(fa.X, map[ssa.Value]bool{})
+		keepsPrefix := sl.Low == nil && sl.High != nil
+		keepsSuffix := sl.Low != nil && sl.High == nil
+		key := "mdiff.UnifyChunks:trim " + w + " edit"
+		switch w {
+		case "last":
+			c.judge(keepsPrefix, "R-TRIM-SIDE", key, st.Pos(), "the previous chunk's trailing context keeps its first lines", "the previous chunk's trailing context is cut at the wrong end: the overlapping lines are its LAST ones, so a prefix must be kept, but the code keeps "+ksym(sl))
+		case "first":
+			c.judge(keepsSuffix, "R-TRIM-SIDE", key, st.Pos(), "the current chunk's leading context keeps its last lines", "the current chunk's leading context is cut at the wrong end: the overlapping lines are its FIRST ones, so a suffix must be kept, but the code keeps "+ksym(sl))
+		default:
+			c.undecided("R-TRIM-SIDE", key, st.Pos(), "cannot tell whether the trimmed edit is the first or the last of its chunk")
+		}
+	})
+	if n == 0 {
+		c.undecided("R-TRIM-SIDE", "mdiff.UnifyChunks", unify.Pos(), "no context trimming found")
 	}
 }
 
